@@ -6,13 +6,14 @@
    closing quote; non-finite numbers are spelled INF, -INF, NaN; 3.0-only kinds are refused under 2.0.
    Whole grids: what the writer emits is accepted by the model of hszinc's own grid rule and denotes the grid written
    (C04_grid_conforms, _general, _2_0, _datetimes).
+   String and URI literals are in the grammar's literal production, stated as an inductive relation (C04_string_in_grammar).
    PARTIAL: conformance of whole documents to the Haystack grammar itself is judged by the independent reader
    (harness/zincspec.py) on every dumped grid, not proved against a grammar relation. *)
 From Coq Require Import String.
 From Coq Require Import List NArith ZArith Bool.
 From HS Require Import Base.Prelude Model.Value Model.Escape Model.Version Model.Json Model.ZincDump Model.ZincParse.
 From HS Require Import Proofs.EscapeP Proofs.ZincParseP Proofs.ZincDumpP Proofs.ZincNumP Proofs.ZincDateP Proofs.ZincListP Proofs.ZincGridP Proofs.ZincDictP Proofs.ZincMetaP Proofs.ZincNestP.
-From HS Require Import Proofs.ZincDateTimeP Proofs.ZincV2P Proofs.ZincMeta2P Proofs.ZincRawP.
+From HS Require Import Proofs.ZincDateTimeP Proofs.ZincV2P Proofs.ZincMeta2P Proofs.ZincRawP Proofs.EscapeGrammarP.
 Import ListNotations.
 Open Scope N_scope.
 
@@ -105,6 +106,15 @@ Theorem C04_grid_conforms_datetimes : forall n mps cols (rows : list (list (hval
    zparse_grid (meta_text mps cols rts) = Ok (meta_grid mps cols (map (map snd) rows))).
 Proof. exact full_grid_datetimes. Qed.
 
+(* CONFORMANCE TO THE GRAMMAR ITSELF, for literals: `literal` / `lit_body` (Proofs/EscapeGrammarP.v) is the string / URI
+   production of the Haystack grammar written as an inductive relation - plain characters from U+0020 other than the quote
+   and the backslash, the listed backslash escapes, backslash-u with four hexadecimal digits - independent of hszinc's
+   reader; every string and URI the writer emits is in it *)
+Theorem C04_string_in_grammar : forall f pre3 s t, zdump (S f) pre3 (VStr s) = Ok t -> literal DQ str_esc_letters t.
+Proof. intros f pre3 s t H. cbn [zdump] in H. exact (written_string_in_grammar s t H). Qed.
+Theorem C04_uri_in_grammar : forall f pre3 s t, zdump (S f) pre3 (VUri s) = Ok t -> literal BQ uri_esc_letters t.
+Proof. intros f pre3 s t H. cbn [zdump] in H. exact (written_uri_in_grammar s t H). Qed.
+
 Example C04_layout_applies :
   let rows := [[(s_ "a", VStr [34; 10; 44]); (s_ "b", VRef (s_ "r-1") (Some [36; 10]))]; [(s_ "b", VList [VMarker; VUri [96; 10]])]] in
   let cols := [(s_ "a", []); (s_ "b", [(s_ "dis", VStr [10])])] in
@@ -130,3 +140,5 @@ Print Assumptions C04_string_literal.
 Print Assumptions C04_version_gate.
 Print Assumptions C04_grid_conforms_2_0.
 Print Assumptions C04_grid_conforms_datetimes.
+Print Assumptions C04_string_in_grammar.
+Print Assumptions C04_uri_in_grammar.
